@@ -2,7 +2,7 @@
 import gens
 import evgen
 import statspipe
-from statspipe import term  # noqa: F401
+from statspipe import term, panic_result  # noqa: F401
 import props.C12 as C12
 
 id = "C01"
